@@ -84,6 +84,7 @@ func Ob_C09_UpdatePermission_Unit() {
 func Ob_C05C13_RollbackMeta() {
 	w := NewWorld()
 	dataId := sym.String("dataId")
+	sym.SetBound("Metadata.Orders", 2) // a renewed model lists more orders than commits
 	m0, found := w.Model.GetMetadata(w.Ctx, dataId)
 	sym.Assume(found)
 	if sym.Tier() == "quick" {
@@ -128,4 +129,28 @@ func Ob_C13C11_NewMeta() {
 	sym.Assert("C13.newmeta-model-and-alias", found && afound && al.Data == m.DataId && got.DataId == m.DataId && got.Owner == m.Owner)
 	e, efound := w.Model.GetExpiredData(w.Ctx, o.CreatedAt+o.Duration)
 	sym.Assert("C11.newmeta-expiry-scheduled", efound && inList(m.DataId, e.Data))
+}
+
+// C16/C11 UpdateMetaStatusAndCommit (MsgStore marking an update of an existing model as in flight): a successful
+// call records the update on the stored model - status, commit and order id - whatever the durations are, never
+// shortens the model's life, and a second update is refused while that one is in flight.
+func Ob_C16C11_UpdateMetaStatusAndCommit() {
+	w := NewWorld()
+	sym.SetBound("ExpiredData.Data", 1)
+	var o1, o2 ordertypes.Order
+	sym.Fill("order1", &o1)
+	sym.Fill("order2", &o2)
+	sym.Assume(InvOrder(o1) && InvOrder(o2) && o1.Operation <= 2 && o2.Operation <= 2 && o2.DataId == o1.DataId)
+	m0, found := w.Model.GetMetadata(w.Ctx, o1.DataId)
+	err1 := w.Model.UpdateMetaStatusAndCommit(w.Ctx, o1)
+	if err1 != nil {
+		return
+	}
+	sym.Cover("C16.update-marked-in-flight")
+	m1, still := w.Model.GetMetadata(w.Ctx, o1.DataId)
+	sym.Assert("C16.in-flight-recorded", found && still && m0.Status == modeltypes.MetaComplete &&
+		m1.Status == int32(o1.Operation) && m1.Commit == o1.Commit && m1.OrderId == o1.Id)
+	sym.Assert("C11.update-never-shortens-life", m1.CreatedAt == m0.CreatedAt && m1.Duration >= m0.Duration)
+	err2 := w.Model.UpdateMetaStatusAndCommit(w.Ctx, o2)
+	sym.Assert("C16.second-update-refused-while-one-in-flight", err2 != nil)
 }
